@@ -107,11 +107,8 @@ def main():
         }],
         "checks": checks,
         "not_applicable": na,
-        "not_applicable": [],
         "notes": "All checks: ./check <id> quick|thorough|replay <file>. Exit 0 held / 1 VIOLATION / 2 infrastructure (never a violation). Known findings: KNOWN_FINDINGS.txt.",
     }
-    if not na:
-        del m["not_applicable"]
     json.dump(m, open(os.path.join(HERE, "MANIFEST.json"), "w"), indent=1)
     print("wrote MANIFEST.json with", len(checks), "checks,", len(na), "not applicable")
 
